@@ -39,6 +39,11 @@ class C04(TalCheck):
                                  "guard_tags": False})
             for kw in variants:
                 alt = run_model(tmpl, plan, hcfg, **kw)
+                if alt.get("guard_relevant") and len(variants) == 1:
+                    # (an omit-tag guard with on-error that only the
+                    # variant reaches: the main model stopped before it)
+                    variants.append({"raw_default_attr": True,
+                                     "guard_tags": False})
                 if not self._judge(tmpl, plan, hcfg, r, alt, set()):
                     return [{
                         "kind": "history",
